@@ -332,6 +332,7 @@ def run(argv):
                 else:
                     chk.traces += 1
     dedup_then_render_check(chk)
+    moved_boundary_check(chk)
     # KROME bound reader vs model
     if getattr(chk, "lean_ok", False):
         from naunet.reactions.kromereaction import KROMEReaction
@@ -355,6 +356,70 @@ def run(argv):
             else:
                 chk.traces += 1
     return chk.finish()
+
+
+def moved_boundary_check(chk):
+    """A two-piece fit is loaded from a file, the boundary between its pieces is moved on the loaded reactions, the network is written
+    in the format it came in and what was written is rendered: at every temperature exactly the piece whose *edited* window contains
+    it is active."""
+    from naunet.network import Network
+    from .ode_checks import reset_species_state
+    from . import netgen
+    rng = chk.rng
+    for fmt in ("naunet", "kida"):
+        d = chk.scratch / f"moved-{fmt}"
+        d.mkdir(parents=True, exist_ok=True)
+        old_b, new_b = 300.0, float(rng.choice([200, 500, 650]))
+        pieces = [{"re": ["H", "CO"], "pr": ["C", "OH"], "tmin": 10.0, "tmax": old_b, "alpha": 2.0},
+                  {"re": ["H", "CO"], "pr": ["C", "OH"], "tmin": old_b, "tmax": 1000.0, "alpha": 3.0}]
+        if fmt == "kida":
+            lines = []
+            for i, r in enumerate(pieces):
+                rs = "".join(f"{x:<11}" for x in r["re"] + [""] * (3 - len(r["re"])))
+                ps = "".join(f"{x:<11}" for x in r["pr"] + [""] * (5 - len(r["pr"])))
+                lines.append(f"{rs} {ps} {r['alpha']:10.3e} {0.0:10.3e} {0.0:10.3e} 2.00e+00 0.00e+00 logn  1 "
+                             f"{int(r['tmin']):>6d} {int(r['tmax']):>6d} {3:>2d} {i + 1:>5d} 1  1")
+        else:
+            mk = netgen.mk
+            sp = {"H": mk([("H", 1)]), "CO": mk([("C", 1), ("O", 1)]), "C": mk([("C", 1)]), "OH": mk([("O", 1), ("H", 1)])}
+            lines = [netgen.native_line(netgen.AReac([sp[x] for x in r["re"]], [sp[x] for x in r["pr"]], alpha=r["alpha"], tmin=r["tmin"],
+                                                     tmax=r["tmax"], idx=i + 1)) for i, r in enumerate(pieces)]
+        (d / f"fit.{fmt}").write_text("\n".join(lines) + "\n")
+        reset_species_state()
+        kw = dict(elements=["H", "C", "N", "O"], pseudo_elements=["CR"])
+        try:
+            with silenced():
+                net = Network(filelist=[str(d / f"fit.{fmt}")], fileformats=[fmt], **kw)
+                net.reaction_list[0].temp_max = new_b
+                net.reaction_list[1].temp_min = new_b
+                net.write(d / "edited.naunet", "naunet")
+                if fmt == "naunet":
+                    back = Network(filelist=[str(d / "edited.naunet")], fileformats=["naunet"], **kw)
+                else:
+                    back = Network(filelist=[str(d / "edited.naunet")], fileformats=["naunet"], **kw)
+                render(back, "dense", d / "dense")
+        except Exception as e:
+            chk.violation({"kind": "moved-boundary-raised", "error": type(e).__name__}, f"editing, writing and rendering a two-piece fit raised {e}")
+            continue
+        rd = Rendered(d / "dense", "dense")
+        stmts = rd.rates("k")
+        chk.count(("moved-boundary", fmt), nontrivial=True)
+        chk.hist["moved-boundary"] += 1
+        lo, hi = min(old_b, new_b), max(old_b, new_b)
+        for T in [10.0, lo - 0.5, lo, (lo + hi) / 2, hi - 0.001, hi, hi + 1.0, 999.0]:
+            act = []
+            for _, rhs, cond in stmts:
+                on = bool(ceval.ev(cparse.parse_expr(cond), {"Tgas": T})) if cond else True
+                if on:
+                    act.append(float(ceval.ev(cparse.parse_expr(rhs), {"Tgas": T})))
+            want = [2.0] if T < new_b else [3.0]
+            if sorted(act) != want:
+                chk.violation({"kind": "written-window-stale", "input_format": fmt},
+                              f"boundary of a two-piece fit moved from {old_b} K to {new_b} K on the loaded reactions; after writing the "
+                              f"network and rendering what was written, the active coefficient(s) at T={T!r} are {sorted(act)}, declared "
+                              f"is {want}", input=lines, written=(d / "edited.naunet").read_text().splitlines(),
+                              guards=[c for _, _, c in stmts])
+                break
 
 
 def dedup_then_render_check(chk):
